@@ -21,6 +21,7 @@ func C11(r *core.Run) {
 	r.NotDecided = "value exactness of start/length for in-range requests, whitespace variants, the multi-range answer (501 today)"
 	ctx := oblig.NewCtx(r.P)
 	rule111(r, ctx)
+	rule115(r, ctx)
 	rule112(r, ctx)
 	rule113(r)
 	rule114(r)
@@ -553,4 +554,86 @@ func rule114(r *core.Run) {
 			}
 		}
 	}
+}
+
+// rule115 — increments of request-controlled values need an upper bound.
+func rule115(r *core.Run, ctx *oblig.Ctx) {
+	r.Rule("R11.5", "in Range(), every '+ positive constant' applied to a value derived from the request's End is evaluated only where End < size (or <=) is established by a dominating guard: otherwise End near the int64 limit wraps and a satisfiable range is refused")
+	fn := mustFunc(r, "gofakes3.(*ObjectRangeRequest).Range")
+	if fn == nil {
+		return
+	}
+	size := fn.Params[len(fn.Params)-1]
+	n := 0
+	core.Instrs(fn, func(in ssa.Instruction) {
+		b, ok := in.(*ssa.BinOp)
+		if !ok {
+			return
+		}
+		var other ssa.Value
+		switch b.Op {
+		case token.ADD:
+			if k, ok := core.ConstInt(b.Y); ok && k > 0 {
+				other = b.X
+			} else if k, ok := core.ConstInt(b.X); ok && k > 0 {
+				other = b.Y
+			}
+		case token.SUB:
+			if k, ok := core.ConstInt(b.Y); ok && k < 0 {
+				other = b.X
+			}
+		}
+		if other == nil {
+			return
+		}
+		// does End contribute positively to `other`?
+		ends := positiveEndLoads(r, other, true, 0)
+		if len(ends) == 0 {
+			return
+		}
+		n++
+		okAll := true
+		for _, e := range ends {
+			if !ctx.Holds(b, e, token.LSS, size) && !ctx.Holds(b, e, token.LEQ, size) {
+				okAll = false
+			}
+		}
+		r.Check(okAll, "R11.5", key(fname(r, fn), "increment of End-derived value", sprintf("#%d", n)), pos(r, b),
+			"evaluated under End < size", "a request-controlled End is incremented where no guard bounds it by size: End = 2^63-1 wraps (e.g. bytes=0-9223372036854775807 is refused instead of clipped)")
+	})
+	if n == 0 {
+		r.Info("R11.5", "none", "", "no increment of an End-derived value in Range()")
+	}
+}
+
+// positiveEndLoads returns the loads of ObjectRangeRequest.End that contribute
+// with positive sign to v (through +, - and conversions).
+func positiveEndLoads(r *core.Run, v ssa.Value, positive bool, d int) []ssa.Value {
+	if d > 5 {
+		return nil
+	}
+	switch x := v.(type) {
+	case *ssa.UnOp:
+		if x.Op == token.MUL {
+			if fa, ok := x.X.(*ssa.FieldAddr); ok && r.P.FieldName(fa) == "gofakes3.ObjectRangeRequest.End" && positive {
+				return []ssa.Value{x}
+			}
+		}
+	case *ssa.BinOp:
+		switch x.Op {
+		case token.ADD:
+			return append(positiveEndLoads(r, x.X, positive, d+1), positiveEndLoads(r, x.Y, positive, d+1)...)
+		case token.SUB:
+			return append(positiveEndLoads(r, x.X, positive, d+1), positiveEndLoads(r, x.Y, !positive, d+1)...)
+		}
+	case *ssa.Convert:
+		return positiveEndLoads(r, x.X, positive, d+1)
+	case *ssa.Phi:
+		var out []ssa.Value
+		for _, e := range x.Edges {
+			out = append(out, positiveEndLoads(r, e, positive, d+1)...)
+		}
+		return out
+	}
+	return nil
 }
